@@ -154,6 +154,18 @@ def reencode(recs, cls, rng):
                 used.add("packed-element-padding")
                 out.append((num, 2, b"".join(pad_varint(v, rng.choice([0, 1, 1, 2, 4])) for _, v in items)))
                 continue
+        if f is not None and f.card == "map" and wt == 2 and rng.random() < 0.5:
+            # a map entry is a message {key = 1; value = 2}: its two fields may come in either order, and either may be missing
+            # (default) - the reference writes key then value, other writers need not (seeded change C02-6: a fast path that takes
+            # the first part for the key)
+            try:
+                ent = read_records(payload)
+                if len(ent) == 2 and {r[0] for r in ent} == {1, 2}:
+                    used.add("map-entry-value-first")
+                    out.append((num, 2, write_records([ent[1], ent[0]])))
+                    continue
+            except WireError:
+                pass
         if f is not None and f.card in ("plain", "optional") and f.group is None and f.elem.kind == "scalar" \
                 and wt in (0, 1, 5) and rng.random() < 0.25:
             used.add("duplicate-singular")
